@@ -5,11 +5,30 @@ from tools.vlib import *
 from tools.vlib import _strip_comments
 
 PID = "C09"
-READY = False
+READY = True
 MANIFEST = {
-    "level_text": "",
-    "level_note": "",
-    "technique": "",
+    "level_text": "Lean 4 theorems, for every 32-byte key, 12-byte nonce, 32-bit initial counter and input of any length: the model "
+                  "of ChaCha20::apply (block loop with wrapping ++counter, partial last block, writes into a resized output vector) "
+                  "equals RFC 8439 ChaCha20 written from the RFC (quarter round, 20-round block function, constants|key|counter|nonce "
+                  "layout, little-endian serialisation, block j XORed with the block of counter (counter+j) mod 2^32) and checked "
+                  "against the RFC's test vectors 2.1.1, 2.2.1, 2.3.2, 2.4.2 by kernel evaluation; applying it twice returns the input "
+                  "(no hypothesis at all); output length = input length; CryptoManager::decrypt_with_key inverts encrypt_with_key for "
+                  "every key that is not all-zero, every chunk id, plaintext and drawn nonce, with the counter = LE32 of the first four "
+                  "id bytes; the excluded all-zero key is characterised by its own theorems (random key swapped in per temporary "
+                  "manager, concrete failing round trip). Tied to the code by (T) tables regenerated from ChaCha20.cpp/CryptoManager.cpp "
+                  "on every run (sigma, rotation distances, the statement list of quarter_round, round count, the eight index 4-tuples, "
+                  "state layout, load/store/derive_counter shift terms) that the model interprets and the proofs unfold, and by (H) a "
+                  "differential run of the real code (quarter_round, chacha20_block, ChaCha20::apply, CryptoManager) against the compiled "
+                  "Lean model with the Lean RFC specification judging every implementation answer.",
+    "level_note": "Trusted: Lean kernel; the RFC transcription (pinned by the RFC's vectors); the regex extractor and the hand-written "
+                  "loop/manager part of the model (validated only by the differential run: lengths 0..200, 63/64/65..513, 64 KiB, "
+                  "counters around 2^32, all-zero/all-FF keys); uint32_t/uint8_t as UInt32/UInt8; reference parameters modelled "
+                  "copy-in/copy-out (index distinctness is a checked theorem); std::array sizes as length hypotheses; "
+                  "random_device/mt19937_64 outputs as universally quantified parameters (passed from the implementation as hints in the "
+                  "run). Outputs above 256 bytes are compared by length + FNV-1a-64 + head/tail. Not claimed: cryptographic strength, "
+                  "timing, the key-stream buffer wipe.",
+    "technique": "Lean 4 functional-equivalence proof (model of the C++ = RFC 8439 specification, loop invariant by functional induction) "
+                 "+ regenerated-constant obligations + model/implementation differential correspondence with Lean specification monitor",
 }
 
 CHACHA = "src/crypto/ChaCha20.cpp"
